@@ -113,6 +113,16 @@ Theorem lifecycle_refines_spec :
 Proof. exact (refines_spec_sw _ _ eq_refl eq_refl). Qed.
 Print Assumptions lifecycle_refines_spec.
 
+(* the fuel of the specification's ownership chain is never what stops it (so the oracle demands
+   everything the property demands): any larger fuel gives the same set *)
+Theorem lifecycle_spec_chain_fuel_adequate :
+  forall (h : list ev) (o k : nat),
+    let p := sp_run h in
+    chain (S (length (s_ids p)) + k) (s_owned p) (s_must p) (s_live p) o =
+    chain (S (length (s_ids p))) (s_owned p) (s_must p) (s_live p) o.
+Proof. exact spec_chain_fuel_adequate. Qed.
+Print Assumptions lifecycle_spec_chain_fuel_adequate.
+
 Example lifecycle_spec_inhabited :
   In 5 (s_must (sp_run sample_history)) /\ s_bad (sp_run sample_history) = false.
 Proof. exact sample_spec_must. Qed.
